@@ -791,3 +791,17 @@ func Compare(q *Query, raw []sql.Row, ref [][]Val) *Diff {
 func seqDiff(eng, ref [][]Val, mode string) *Diff {
 	return &Diff{Mode: mode, Extra: RowKeys(eng), Missing: RowKeys(ref), Note: "Extra = engine sequence, Missing = reference sequence"}
 }
+
+// SortedOnKeys reports whether the engine rows are sorted on the query's ORDER BY keys.
+func SortedOnKeys(q *Query, raw []sql.Row) bool {
+	eng, ok := EngineRows(raw)
+	if !ok {
+		return false
+	}
+	for i := 1; i < len(eng); i++ {
+		if keyCmp(q.OrderBy, eng[i-1], eng[i]) > 0 {
+			return false
+		}
+	}
+	return true
+}
